@@ -474,49 +474,96 @@ theorem pendingFault_eq_some_iff (f : Faults) (H : Handles) (l : List Ev) (x : T
       simp [(h2 b hb).2]
     simp [this]
 
-/-- in the output of `uptoFirst` the elements that satisfy `p` (at most the last) come last -/
-theorem uptoFirst_partition {p : α → Bool} : ∀ (l : List α),
-    uptoFirst p l = (uptoFirst p l).filter (fun x => !p x) ++ (uptoFirst p l).filter p
+theorem units_flatten : ∀ (steps : List Step), (units steps).flatten = steps
   | [] => rfl
-  | a :: l => by
-    unfold uptoFirst
+  | [s] => rfl
+  | s :: c :: rest => by
+    unfold units
+    split
+    · simp [units_flatten rest]
+    · simp [units_flatten (c :: rest)]
+
+theorem uptoFirst_none_all {p : α → Bool} : ∀ {l : List α}, (∀ x ∈ uptoFirst p l, p x = false) → ∀ x ∈ l, p x = false
+  | [], _ => by simp
+  | a :: l, h => by
+    unfold uptoFirst at h
     cases ha : p a with
-    | true => simp [ha]
+    | true =>
+      have := h a (by simp [ha])
+      rw [ha] at this; cases this
     | false =>
-      simp only [Bool.false_eq_true, if_false, List.filter_cons, ha, Bool.not_false, if_true, List.cons_append]
-      exact congrArg _ (uptoFirst_partition l)
+      simp only [ha, Bool.false_eq_true, if_false] at h
+      intro x hx
+      rcases List.mem_cons.mp hx with rfl | hx
+      · exact ha
+      · exact uptoFirst_none_all (fun y hy => h y (by simp [hy])) x hx
 
-/-- the tear-down owed = what the failing begin-callback cleans up itself, then what the exit
-    stack runs -/
+/-- the begin-callbacks a session reaches = those of the started units, then those of the unit
+    that failed -/
+theorem splitInit_append (f : Faults) : ∀ (us : List (List Step)),
+    uptoFirst (raises f) (us.flatten.flatMap beginEvs) = (splitInit f us).1 ++ (splitInit f us).2
+  | [] => rfl
+  | u :: us => by
+    simp only [List.flatten_cons, List.flatMap_append, splitInit]
+    cases hany : (u.flatMap beginEvs).any (raises f) with
+    | true => simp [uptoFirst_append_of_any hany]
+    | false =>
+      have hnone : ∀ x ∈ u.flatMap beginEvs, raises f x = false := by
+        intro x hx
+        have := List.any_eq_false.mp hany x hx
+        simpa using this
+      simp [uptoFirst_append_of_none hnone, splitInit_append f us]
+
+theorem splitInit_started_none (f : Faults) : ∀ (us : List (List Step)), ∀ e ∈ (splitInit f us).1, raises f e = false
+  | [], e, he => by simp [splitInit] at he
+  | u :: us, e, he => by
+    simp only [splitInit] at he
+    cases hany : (u.flatMap beginEvs).any (raises f) with
+    | true => simp [hany] at he
+    | false =>
+      simp only [hany, Bool.false_eq_true, if_false] at he
+      rcases List.mem_append.mp he with he | he
+      · have := List.any_eq_false.mp hany e he
+        simpa using this
+      · exact splitInit_started_none f us e he
+
+theorem splitInit_of_none (f : Faults) : ∀ (us : List (List Step)),
+    (∀ e ∈ us.flatten.flatMap beginEvs, raises f e = false) →
+    splitInit f us = (us.flatten.flatMap beginEvs, [])
+  | [], _ => rfl
+  | u :: us, h => by
+    simp only [List.flatten_cons, List.flatMap_append] at h ⊢
+    have hany : (u.flatMap beginEvs).any (raises f) = false := by
+      rw [List.any_eq_false]
+      intro x hx
+      simp [h x (List.mem_append_left _ hx)]
+    simp [splitInit, hany, splitInit_of_none f us (fun e he => h e (List.mem_append_right _ he))]
+
+theorem expectedInit_split (steps : List Step) (f : Faults) :
+    expectedInit steps f = startedInit f steps ++ failedInit f steps := by
+  unfold expectedInit startedInit failedInit
+  rw [← splitInit_append, units_flatten]
+
+/-- the tear-down owed = what the failing unit cleans up itself, then what the exit stack runs -/
 theorem teardown_split (steps : List Step) (f : Faults) :
-    teardown f (expectedInit steps f)
-      = ownCleanup f (expectedInit steps f) ++ stackTeardown f (expectedInit steps f) := by
+    teardown f (expectedInit steps f) = ownCleanup f steps ++ stackTeardown f steps := by
   unfold ownCleanup stackTeardown
-  rw [← teardown_append]
-  exact congrArg _ (uptoFirst_partition _)
+  rw [← teardown_append, ← expectedInit_split]
 
-theorem filter_raises_of_none (f : Faults) {l : List Ev} (h : ∀ e ∈ l, raises f e = false) :
-    l.filter (raises f) = [] ∧ l.filter (fun e => !raises f e) = l := by
-  constructor
-  · rw [List.filter_eq_nil_iff]
-    intro e he
-    simp [h e he]
-  · rw [List.filter_eq_self]
-    intro e he
-    simp [h e he]
+theorem startedInit_none (steps : List Step) (f : Faults) : ∀ e ∈ startedInit f steps, raises f e = false :=
+  splitInit_started_none f _
 
-theorem ownCleanup_of_none (f : Faults) {l : List Ev} (h : ∀ e ∈ l, raises f e = false) :
-    ownCleanup f l = [] ∧ stackTeardown f l = teardown f l := by
-  unfold ownCleanup stackTeardown
-  rw [(filter_raises_of_none f h).1, (filter_raises_of_none f h).2]
+/-- when every begin-callback returned there is no failing unit: everything is on the exit stack -/
+theorem ownCleanup_of_none (steps : List Step) (f : Faults) (h : ∀ e ∈ expectedInit steps f, raises f e = false) :
+    ownCleanup f steps = [] ∧ stackTeardown f steps = teardown f (expectedInit steps f) := by
+  have hall : ∀ e ∈ (units steps).flatten.flatMap beginEvs, raises f e = false := by
+    rw [units_flatten]
+    exact uptoFirst_none_all h
+  have hs := splitInit_of_none f (units steps) hall
+  have hini : expectedInit steps f = steps.flatMap beginEvs := uptoFirst_of_none (by rw [units_flatten] at hall; exact hall)
+  unfold ownCleanup stackTeardown failedInit startedInit
+  rw [hs, hini, units_flatten]
   exact ⟨rfl, rfl⟩
-
-theorem ownCleanup_append_of_none (f : Faults) {a : List Ev} (b : List Ev) (h : ∀ e ∈ a, raises f e = false) :
-    ownCleanup f (a ++ b) = ownCleanup f b
-      ∧ stackTeardown f (a ++ b) = stackTeardown f b ++ teardown f a := by
-  unfold ownCleanup stackTeardown
-  rw [List.filter_append, List.filter_append, (filter_raises_of_none f h).1, (filter_raises_of_none f h).2]
-  exact ⟨rfl, teardown_append f _ _⟩
 
 theorem count_exit_teardown (f : Faults) (id : Nat) (hf : f (.enter id) = false) : ∀ (ini : List Ev),
     List.count (.exit id) (teardown f ini) = List.count (.enter id) ini
